@@ -8,6 +8,7 @@ structure WTState where
   r : RConn := default
   hasReader : Bool := false
   defBuf : Nat := 4096
+  hasPrev : Bool := false       -- a reader of an earlier message exists (NextReader has retired it)
   prepared : List (String × Msg) := []     -- prepared messages kept for later (a prepared frame depends on the message only)
 
 def errStr : Option RErr → String
@@ -67,10 +68,13 @@ def wtStep (s : WTState) (toks : List String) : WTState × String :=
     let transient := tl.startsWith "t"
     ({ s with r := { input := if transient then (unhex hex).take (tl.drop 1).toString.toNat! else unhex hex,
                      tail := if tl = "f" ∨ transient then .fail else .eof,
-                     limit := limit.toNat!, closeFails := cf = "1" }, hasReader := false }, "ok")
+                     limit := limit.toNat!, closeFails := cf = "1" }, hasReader := false, hasPrev := false }, "ok")
   | ["next"] =>
     let (o, c, h) := nextN 1 s.r
-    ({ s with r := c, hasReader := h }, o)
+    ({ s with r := c, hasReader := h, hasPrev := s.hasPrev || s.hasReader }, o)
+  | ["readprev", _] =>
+    -- a retired reader delivers nothing: `messageReader.Read` returns (0, io.EOF) once the connection has moved on
+    if s.hasPrev then (s, "data - eof") else (s, "noreader")
   | ["nextn", n] =>
     let (o, c, h) := nextN n.toNat! s.r
     ({ s with r := c, hasReader := h }, o)
